@@ -79,6 +79,16 @@ func c16Walk(b []byte) c16Frame {
 	return f
 }
 
+// c16BufLen: natively the exact frame size; under the engine (where the
+// sample loops are cut and only the length check reads it) the largest size
+// any choice of dimensions needs, so that the length is concrete.
+func c16BufLen(exact, c int) int {
+	if vrt.Symbolic() {
+		return 65535 * c * 2
+	}
+	return exact
+}
+
 // c16Dims: one dimension over the whole 16-bit range (needs both bytes of the
 // field), the other small, so that the native replay stays small.
 func c16Dims() (int, int) {
@@ -96,7 +106,7 @@ func VerifC16Header() {
 	w, h := c16Dims()
 	c := []int{1, 3}[vrt.Choice("c", 0, 1)]
 	P := vrt.Choice("P", 2, 16)
-	px := make([]byte, w*h*c*2)
+	px := make([]byte, c16BufLen(w*h*c*2, c))
 	if vrt.Symbolic() {
 		vrt.StubWith("(*"+jlsPkg+".Encoder).encodeScan", func(enc *Encoder, wr *standard.Writer, p []byte) error { return nil })
 	}
@@ -115,5 +125,5 @@ func VerifC16Header() {
 		ilv = 2
 	}
 	vrt.Assert(len(f.sos) == 1+2*c+3 && int(f.sos[0]) == c && int(f.sos[1+2*c]) == 0 && int(f.sos[2+2*c]) == ilv, "C16 scan header declares the component count, NEAR 0 and the interleave mode")
-	vrt.Out("len", len(s))
+	vrt.Out("w", f.w)
 }
